@@ -9,7 +9,10 @@ import (
 	"github.com/anyproto/any-sync/util/crypto"
 )
 
-var ErrInvalidSignature = errors.New("invalid signature")
+var (
+	ErrInvalidSignature  = errors.New("invalid signature")
+	ErrKeyPeerIdMismatch = errors.New("key peer id doesn't match the signed key and peer")
+)
 
 type KeyValue struct {
 	KeyPeerId string
@@ -53,7 +56,12 @@ func KeyValueFromProto(proto *spacesyncproto.StoreKeyValue, verify bool) (kv Key
 	kv.PeerId = peerId.PeerId()
 	kv.Key = innerValue.Key
 	kv.AclId = innerValue.AclHeadId
-	// TODO: check that key-peerId is equal to key+peerId?
+	// the slot a value is filed under is not covered by the signatures, so it has to be
+	// the one the signed bytes name: otherwise any peer could re-file a valid value of
+	// one (key, peer) under another key or another peer's slot
+	if kv.KeyPeerId != kv.Key+"-"+kv.PeerId {
+		return kv, ErrKeyPeerIdMismatch
+	}
 	if verify {
 		if verify, _ = identity.Verify(proto.Value, proto.IdentitySignature); !verify {
 			return kv, ErrInvalidSignature
